@@ -70,7 +70,7 @@ pub fn soup_strategy() -> BoxedStrategy<Soup> {
                     variants.insert(at, (vec![a], ""));
                 } else if let Some(sh) = shape {
                     let at = (pos as usize) % (variants.len() + 1);
-                    variants.insert(at, (vec!["#[token(\"mr\")]"], sh));
+                    variants.insert(at, (if pos & 0x40 == 0 { vec!["#[token(\"mr\")]"] } else if pos & 0x20 == 0 { vec![] } else { vec!["/// doc"] }, sh));
                 } else {
                     generics = "<const N: usize>";
                 }
@@ -195,15 +195,19 @@ pub fn main(args: &Args) -> i32 {
         }
     }
     for (shape, reason) in model::soup::MUST_REJECT_SHAPES {
-        let src = format!("#[derive(Logos)]\nenum T {{\n    #[token(\"mr\")]\n    V0{shape},\n    #[token(\"zq\")]\n    V1,\n}}\n");
-        let d = derive_rust(src.clone());
-        run.eval(1);
-        run.count("must_reject_classes_alone", 1);
-        if let Err(msg) = judge(&src, Some(reason), true, &d) {
-            run.violations = 1;
-            report_violation("C19", &args.replay_dir, &json!({"property": "C19", "tier": "G", "source": src, "must_reject": reason, "fragments_ok": true, "findings": [{"property": "C19", "what": msg}]}));
-            run.write_evidence(&args.evidence);
-            return 1;
+        // the offending variant with a pattern, with a foreign attribute only, and bare (a variant without a pattern is no
+        // token of the lexer, its shape is rejected all the same)
+        for attr in ["#[token(\"mr\")]\n    ", "#[allow(dead_code)]\n    ", "/// doc\n    ", ""] {
+            let src = format!("#[derive(Logos)]\nenum T {{\n    {attr}V0{shape},\n    #[token(\"zq\")]\n    V1,\n}}\n");
+            let d = derive_rust(src.clone());
+            run.eval(1);
+            run.count("must_reject_classes_alone", 1);
+            if let Err(msg) = judge(&src, Some(reason), true, &d) {
+                run.violations = 1;
+                report_violation("C19", &args.replay_dir, &json!({"property": "C19", "tier": "G", "source": src, "must_reject": reason, "fragments_ok": true, "findings": [{"property": "C19", "what": msg}]}));
+                run.write_evidence(&args.evidence);
+                return 1;
+            }
         }
     }
     let res = drive(&soup_strategy(), cases, args.seed ^ 0xC19, 800, &mut run, |c, run| check(c, run));
